@@ -451,7 +451,15 @@ fn run_typed<C: SimColor + ColorMapping>(sc: &Scenario, opts: &Opts) -> RunOut {
                     )
                 });
             }
-            let cells = read_cells(&display);
+            let cells = match guarded(|| read_cells(&display)) {
+                Ok(c) => c,
+                Err(e) => {
+                    if viol.is_none() {
+                        viol = Some(mk(si, "unexpected_panic", format!("get_pixel on an in-range point panicked: {}", e)));
+                    }
+                    model.cells.clone()
+                }
+            };
             if viol.is_none() {
                 if applied.panics {
                     panicked_before = true;
@@ -518,17 +526,24 @@ fn run_typed<C: SimColor + ColorMapping>(sc: &Scenario, opts: &Opts) -> RunOut {
                     let mut other = display.clone();
                     let mut other_cells = model.cells.clone();
                     if let Some((p, c)) = modify {
-                        other.set_pixel(Point::new(p[0], p[1]), c.map(C::from_u32));
+                        if let Err(e) = guarded(|| other.set_pixel(Point::new(p[0], p[1]), c.map(C::from_u32))) {
+                            viol = Some(mk(si, "unexpected_panic", format!("set_pixel on an in-range point panicked: {}", e)));
+                        }
                         other_cells[p[1] as usize * N + p[0] as usize] = *c;
                     }
-                    let r = guarded(|| {
+                    let r = if viol.is_some() {
+                        Ok((model.cells == other_cells, vec![None; N * N]))
+                    } else {
+                        guarded(|| {
                         let eq = display == other;
                         let diff = display.diff(&other);
                         let dcells = read_cells(&diff);
                         (eq, dcells)
-                    });
+                        })
+                    };
                     match r {
                         Err(e) => viol = Some(mk(si, "unexpected_panic", format!("eq/diff panicked: {}", e))),
+                        Ok(_) if viol.is_some() => {}
                         Ok((eq, dcells)) => {
                             let all_agree = model.cells == other_cells;
                             if eq != all_agree {
@@ -653,7 +668,13 @@ fn run_typed<C: SimColor + ColorMapping>(sc: &Scenario, opts: &Opts) -> RunOut {
                 _ => {}
             }
             if viol.is_none() && matches!(step, Step::SetPixel { .. }) {
-                let cells = read_cells(&display);
+                let cells = match guarded(|| read_cells(&display)) {
+                    Ok(c) => c,
+                    Err(e) => {
+                        viol = Some(mk(si, "unexpected_panic", format!("get_pixel on an in-range point panicked: {}", e)));
+                        model.cells.clone()
+                    }
+                };
                 if let Some((x, y, want, got)) = first_cell_diff(&model.cells, &cells) {
                     viol = Some(mk(si, "get_pixel_mismatch", format!("get_pixel(({},{})) returned {:?}, model says {:?}", x, y, got, want)));
                 }
